@@ -315,10 +315,11 @@ def named_constant(e):
     if not (isinstance(e, ast.Attribute) and e.attr.isupper()):
         return False
     b = e.value
+    if isinstance(b, ast.Name) and b.id in ("self", "cls"):
+        return len(e.attr) > 1          # self.CONSTANT: a class-level constant read through the instance
     while isinstance(b, ast.Attribute):
         b = b.value
-    return isinstance(b, ast.Name) and (b.id[:1].isupper() or b.id in ("np", "numpy", "math", "sys", "os", "re", "cls", "self")) \
-        and not (isinstance(e.value, ast.Name) and e.value.id in ("self", "cls") and len(e.attr) == 1)
+    return isinstance(b, ast.Name) and (b.id[:1].isupper() or b.id in ("np", "numpy", "math", "sys", "os", "re"))
 
 
 def written_names(target):
@@ -355,7 +356,8 @@ def text_type(e, types):
             return "str"
         if isinstance(e.func, ast.Attribute) and e.func.attr in _STR_TO_STR:
             return "str"
-        if isinstance(e.func, ast.Attribute) and e.func.attr in _STR_TO_LIST:
+        if isinstance(e.func, ast.Attribute) and e.func.attr in _STR_TO_LIST \
+                and not (isinstance(e.func.value, ast.Name) and e.func.value.id in ("np", "numpy")):       # np.split(a, n): arrays
             return "liststr"
         return None
     if isinstance(e, ast.Subscript):
